@@ -19,8 +19,8 @@ def wrapper_unit(c: Ctx) -> Unit:
 def acquire_nodes(c: Ctx, u: Unit, g):
     out = []
     for n in g.live_nodes():
-        if n.kind == 'stmt' and any(call_name(x) in ACQUIRERS for x in q.node_calls(n)) and isinstance(n.ast, ast.Assign):
-            out.append(n)
+        if n.kind == 'stmt' and any(call_name(x) in ACQUIRERS for x in q.node_calls(n)) and isinstance(n.ast, (ast.Assign, ast.Expr)):
+            out.append(n)  # (an acquisition whose result is not bound is an acquisition all the same: nothing records whether a slot was obtained)
     return out
 
 
@@ -29,6 +29,9 @@ def is_release_stmt(n) -> bool:
         return False
     for x in ast.walk(n.ast):
         if isinstance(x, ast.Call) and call_name(x) == 'release' and isinstance(x.func, ast.Attribute):
+            return True
+        # the bound method handed to a runner that calls it: `await asyncio.to_thread(lock.release)`, `loop.run_in_executor(None, lock.release)`
+        if isinstance(x, ast.Call) and call_name(x) in ('to_thread', 'run_in_executor') and any(isinstance(a, ast.Attribute) and a.attr == 'release' for a in x.args):
             return True
     return False
 
@@ -40,15 +43,18 @@ def c20_1(c: Ctx) -> None:
     g = c.cfg(u)
     acqs = acquire_nodes(c, u, g)
     c.floor(len(acqs), 2, 'semaphore acquisition statements in wrapper (asyncio, multiprocess)')
-    lexical_rels = [n for n in own_nodes_with_lambdas(u.node) if isinstance(n, ast.Call) and call_name(n) == 'release']
+    lexical_rels = [n for n in own_nodes_with_lambdas(u.node) if (isinstance(n, ast.Call) and call_name(n) == 'release') or (isinstance(n, ast.Attribute) and n.attr == 'release' and isinstance(n.ctx, ast.Load))]
     c.floor(len(lexical_rels), 1, 'release calls in wrapper')
     scope_atom = eq_atom('semaphore_scope', "'multiprocess'")
     tracked = {'semaphore_acquired', 'semaphore', 'multiprocess_lock', scope_atom}
     from sa.cfg import search
 
     for an_ in acqs:
-        tg = an_.ast.targets[0]
-        names = [t.id for t in (tg.elts if isinstance(tg, ast.Tuple) else [tg]) if isinstance(t, ast.Name)]
+        if isinstance(an_.ast, ast.Expr):
+            names = ['#unbound-result']
+        else:
+            tg = an_.ast.targets[0]
+            names = [t.id for t in (tg.elts if isinstance(tg, ast.Tuple) else [tg]) if isinstance(t, ast.Name)]
         flag = names[0]
         lockvar = names[1] if len(names) > 1 else None
         for acquired in (True, False):
@@ -62,7 +68,7 @@ def c20_1(c: Ctx) -> None:
                 if env.get('#acq') == 'T' and is_release_stmt(n):
                     env['#rel'] = '2+' if env.get('#rel') == '1' else '1'
 
-            facts = Facts(lambda a: a in tracked, cg=c.cg, unit=u, post=post)
+            facts = Facts(lambda a: a in tracked or a.isidentifier(), cg=c.cg, unit=u, post=post)  # (every plain local: the evidence of ownership may be handed from one to another)
             want = '1' if acquired else None
 
             def edge_ok(n, e, d, an_=an_):
@@ -74,7 +80,7 @@ def c20_1(c: Ctx) -> None:
                        edge_ok=edge_ok, transfer=facts.transfer)
             desc = 'acquired' if acquired else 'not acquired (lax timeout)'
             if p is None:
-                c.ok(where(u, an_.ast), f'{call_name(an_.ast.value.value if isinstance(an_.ast.value, ast.Await) else an_.ast.value)}: {desc} -> {"exactly one release" if acquired else "no release"} on every exit',
+                c.ok(where(u, an_.ast), f'{call_name(an_.ast.value.value if isinstance(an_.ast.value, ast.Await) else an_.ast.value) if isinstance(getattr(an_.ast.value, "value", an_.ast.value), ast.Call) else "acquire"}: {desc} -> {"exactly one release" if acquired else "no release"} on every exit',
                      exits=len(g.raise_exits) + 1)
             else:
                 cnt = dict(p[-1].env).get('#rel', '0')
@@ -82,7 +88,7 @@ def c20_1(c: Ctx) -> None:
                 c.fail(u, f'{flag} {desc}: exit via {how} with {cnt} releases', ('an acquired semaphore slot is never released (capacity leaks)' if cnt == '0' else 'a slot is released twice (the limit is exceeded)') if acquired
                        else 'a slot that was never acquired is released (the limit is exceeded)', node=an_.ast, witness=c.path(g.entry, p))
     # no semaphore configured: nothing is released
-    facts0 = Facts(lambda a: a in tracked or a == 'semaphore_limit', cg=c.cg, unit=u)
+    facts0 = Facts(lambda a: a in tracked or a.isidentifier(), cg=c.cg, unit=u)
     p = q.reach_search(g, [(g.entry, {'semaphore_limit': 'N'})], lambda n, d: is_release_stmt(n), facts=facts0)
     if p is None:
         c.ok(where(u), 'without semaphore_limit no release is reachable')
